@@ -54,7 +54,8 @@ _SCHED_EXPL = ('contract-based deductive verification of the functions the prope
                '_ResourceUsage.reserve/reserved and ResourceUsageReport.reserved (sum-comprehensions proved equal to the ledger specification functions by induction), and the two recursive passes '
                '__forward_pass/__backward_pass checked against their own contracts at every call site (recursion = induction, termination by rank). All loops are cut by invariants - no bound on WBS size, '
                'calendar, dates or amounts; capacity is an uninterpreted function, so the proofs hold for every calendar. ForwardScheduler.calc and BackwardScheduler.calc are checked too: the base case (empty ledger, nothing scheduled, summaries cleared by the proved __prepare_tasks) establishes the pass pre-condition, '
-               'the loop over the roots keeps it, and on return the ledger invariant (C03), start <= end / complete fields of every scheduled task (C07), no work for unscheduled tasks (C04) and every root scheduled (C14) hold. '
+               'the loop over the roots keeps it, and on return the ledger invariant (C03), start <= end / complete fields of every scheduled task (C07), no work for unscheduled tasks (C04), every root scheduled (C14) and the dependency clause for EVERY scheduled task - forward: a leaf without user-fixed dates starts on or after the day its own and its inherited prerequisites end and not before the project start (C02); '
+               'backward: it ends before the project end and before its own and inherited successors start (C09) - hold (both carried as global invariants of the calculated set through the recursion). '
                'Level `other`, not `proof`: clone and the cycle check are only covered by the bounded native stand-in; the structure facts listed under trusted are assumed at the clone call (closed world: links inside the WBS). ')
 PROPS.update({
     'C02': P('other', _SCHED_EXPL + 'C02 clauses proved: a scheduler-chosen start is on/after the day of the end of every own and inherited prerequisite (inherited = predecessors of every ancestor, final because calculated), '
